@@ -172,7 +172,7 @@ fn c03_4d_waiting_to_resume() { run_frozen(2) }
 #[kani::unwind(8)]
 fn c03_4e_stopped() { run_frozen(3) }
 
-// @ob id=C11.1a strength=bounded tier=quick timeout=1800 bound="3 symbolic frames, sample_rate 1, dt 1 (rate 1); 2 output frames rendered as one 2-frame call vs two 1-frame calls" fn=sound/static_sound/sound.rs::<StaticSound as Sound>::process
+// @ob id=C11.1a strength=bounded tier=thorough timeout=7200 bound="3 symbolic frames, sample_rate 1, dt 1 (rate 1); 2 output frames rendered as one 2-frame call vs two 1-frame calls" fn=sound/static_sound/sound.rs::<StaticSound as Sound>::process
 // @req two identical sounds (same data, default settings, constant parameters)
 // @ens the rendered frames are bit-identical and so is the playback position afterwards, whatever the buffer size
 #[kani::proof]
